@@ -61,6 +61,8 @@ def g_closed(s, P):
             perm = list(range(nboot))
             s.shuffle(perm)
             kw['perm'] = perm
+        if s.chance(0.4):
+            kw['pts'] = s.choice([[12], [10, 12]])
         P.add('C19.closed_form', fn, k, seed, ns, p0, multinom, eps, s.randint(0, 3), nboot, **kw)
     return P
 
@@ -91,7 +93,47 @@ def g_chi2(s, P):
     return P
 
 
-TABLE = [(g_stencil, 5), (g_closed, 12), (g_perm, 4), (g_chi2, 2), (G.g_godambe, 8), (G.g_godambe_real, 2), (G.g_spectrum, 1), (G.g_extrap, 1)]
+def g_collide(s, P):
+    """E5: consecutive calls that agree in everything a too-coarse cache key might look at (model function, p0, eps)
+    and differ in one thing: grid setting, sample sizes, data seed, bootstraps, theta adjustments, nested set"""
+    fn = s.choice(['FIM', 'GIM', 'GIM', 'LRT', 'score', 'Wald'])
+    k, ns, seed, multinom, p0, eps, nboot = _case(s, fn)
+    base = dict(pts=[10], ns=ns, dseed=1, nboot=nboot, adjusts=None)
+    kw0 = {}
+    if fn not in ('FIM', 'GIM'):
+        nested = sorted(s.sample(list(range(k)), s.randint(1, k - 1)))
+        kw0['nested'] = nested
+        full = list(p0)
+        for i in nested:
+            p0[i] = s.choice([0.0, 1.0])
+        if fn == 'Wald':
+            kw0['full'] = full
+    variants = [dict(base)]
+    for _ in range(s.randint(1, 3)):
+        v = dict(base)
+        what = s.choice(['pts', 'ns', 'dseed', 'nboot', 'adjusts'])
+        if what == 'pts':
+            v['pts'] = s.choice([[12], [10, 12], [14]])
+        elif what == 'ns':
+            v['ns'] = s.choice([x for x in ([8], [10], [12], [4, 3], [5, 4]) if x != ns])
+        elif what == 'dseed':
+            v['dseed'] = s.choice([0, 2, 3])
+        elif what == 'nboot':
+            v['nboot'] = nboot + s.randint(1, 3)
+        elif fn in ('GIM', 'LRT') and not multinom:
+            v['adjusts'] = [s.choice([0.8, 1.25]) for _ in range(nboot)]
+        variants.append(v)
+    s.shuffle(variants)
+    for v in variants:
+        kw = dict(kw0)
+        kw['pts'] = v['pts']
+        if v['adjusts']:
+            kw['adjusts'] = v['adjusts'][:v['nboot']] + [1.0] * max(0, v['nboot'] - len(v['adjusts']))
+        P.add('C19.closed_form', fn, k, seed, v['ns'], list(p0), multinom, eps, v['dseed'], v['nboot'], **kw)
+    return P
+
+
+TABLE = [(g_collide, 8), (g_stencil, 5), (g_closed, 12), (g_perm, 4), (g_chi2, 2), (G.g_godambe, 8), (G.g_godambe_real, 2), (G.g_spectrum, 1), (G.g_extrap, 1)]
 
 
 def gen(root, phase, idx, faults):
